@@ -134,7 +134,7 @@ func acquiresSummary(c *Ctx, f *ssa.Function, depth int, memo map[*ssa.Function]
 		return out
 	}
 	stack[f] = true
-	allInstrs(f, func(in ssa.Instruction) {
+	allInstrsIn(f, func(in ssa.Instruction) {
 		ci, ok := in.(ssa.CallInstruction)
 		if !ok {
 			return
@@ -176,7 +176,7 @@ func lockOrderEdges(c *Ctx, pkgs []string) []lockEdge {
 				continue
 			}
 			lf := computeLockFlow(f, heldSet{})
-			allInstrs(f, func(in ssa.Instruction) {
+			allInstrsIn(f, func(in ssa.Instruction) {
 				ci, ok := in.(ssa.CallInstruction)
 				if !ok {
 					return
@@ -340,7 +340,7 @@ func ignoredGuardResults(c *Ctx, ru *Rule, prop string) {
 			continue
 		}
 		f := f
-		allInstrs(f, func(in ssa.Instruction) {
+		allInstrsIn(f, func(in ssa.Instruction) {
 			ci, ok := in.(ssa.CallInstruction)
 			if !ok {
 				return
